@@ -1,5 +1,6 @@
 (* RunC03cg.v — executable entry point of the SSA -> circuit model (Lang/CircGen.v)
-   for the C03 correspondence check, modes 4/5 of run_c03:
+   for the C03 correspondence check, modes 4/5 (Yao target) and 6/7 (GMW target)
+   of run_c03:
 
      input   (mode ssa ((input values...) ...))      ssa as in Lang/RunC03.v (mode 1):
              the listing the real compiler printed, decoded by RunC03.dec_sprog
@@ -14,10 +15,10 @@
    over the two words op+8a, b+2^32 o of every gate, m = 1 + 2^7 + 2^23 (odd, so
    a change of any single word always changes the hash; written with shifts
    because the extracted model computes on binary numbers).
-   gates = the full list ((op a b o)...) in mode 5, () in mode 4.
+   gates = the full list ((op a b o)...) in modes 5 and 7, () in modes 4 and 6.
    wfc / dbu: single assignment and defined-before-use of that list;
-   wf: the hypothesis [cg_wf] of the theorem circuitgen_correct, evaluated on
-   this program; outputs: gate-by-gate evaluation of the model's circuit on each
+   wf: the hypothesis [cg_wf_tg tg] of the theorems circuitgen_correct (Yao) /
+   circuitgen_correct_gmw, evaluated on this program; outputs: gate-by-gate evaluation of the model's circuit on each
    input vector (one number per returned value). *)
 From Coq Require Import ZArith NArith List Bool Arith FMapPositive.
 From Mpc Require Import Gen.Consts Gen.Thresholds Base.Sx Lang.Mini Lang.Ssa Lang.CircGen
@@ -34,8 +35,10 @@ Definition cg_hash_gates (gs : list gate) : N := fold_left cg_hash_gate gs 1%N.
 Definition count_op (o : gop) (gs : list gate) : nat :=
   length (filter (fun g => Z.eqb (op_code (g_op g)) (op_code o)) gs).
 
-Definition run_c03cg (full : bool) (p : sprog) (vectors : list (list N)) : sx :=
-  let c := circuit_of_ssa p in
+(* tg = false: the configuration of utils.NewParams() (= circuit_of_ssa p);
+   tg = true: Params.Target = utils.TargetGMW *)
+Definition run_c03cg (tg full : bool) (p : sprog) (vectors : list (list N)) : sx :=
+  let c := circuit_of_ssa_gen multiplierArrayTresholds 0 tg p in
   let ninp := N.of_nat (cc_ninp c) in
   let '(cg, _) := canon_gates ninp (mkCanon (PositiveMap.empty N) ninp)
                               (rev_append (cc_gates c) []) [] in
@@ -47,7 +50,7 @@ Definition run_c03cg (full : bool) (p : sprog) (vectors : list (list N)) : sx :=
        ofN (cg_hash_gates cg);
        ofB (wfc_fast ninp cg (PositiveMap.empty unit));
        ofB (dbu_fast ninp cg (PositiveMap.empty unit));
-       ofB (cg_wf p);
+       ofB (cg_wf_tg tg p);
        SL (map outs vectors);
        if full then SL (map (fun g => SL [SZ (op_code (g_op g)); ofN (g_a g); ofN (g_b g); ofN (g_o g)]) cg)
        else SL [] ].
